@@ -11,6 +11,7 @@ import Driver.Split
 import Driver.Cache
 import Driver.Crash
 import Driver.Timeout
+import Driver.Files
 
 open Lean Driver
 
@@ -27,6 +28,7 @@ def dispatch (op : String) (inp out : Json) : Json :=
   | "cache" => runCacheOp inp out
   | "crashwrite" => runCrash inp out
   | "timeout" => runTimeoutOp inp out
+  | "files" => runFilesOp inp out
   | "timeoutrace" => runTimeoutOp inp out
   | _ => Json.mkObj [("same", Json.bool false), ("diff", Json.str s!"unknown op {op}"), ("fails", Json.arr #[])]
 
